@@ -558,7 +558,7 @@ def run_real(ctx, exe, lines, timeout):
         err = ""
         try:
             with open(fin) as fi, open(fout, "w") as fo:
-                p = subprocess.run([str(exe)], stdin=fi, stdout=fo, stderr=subprocess.PIPE, text=True, env=env,
+                p = subprocess.run([str(exe)], stdin=fi, stdout=fo, stderr=subprocess.PIPE, text=True, errors="replace", env=env,
                                    timeout=timeout, preexec_fn=_limits)
             rc, err = p.returncode, p.stderr[-20000:]
         except subprocess.TimeoutExpired:
